@@ -75,7 +75,8 @@ def posIn (l : List Nat) (p : Option Nat) : String :=
   | none => "-1"
   | some i => match l.idxOf? i with | some k => toString k | none => "-2"
 
-/-- `shape ipos=<k> classes=<l;l> gattr=<row;row> passes=<pass|pass> text=<hex32> [sdir=<font direction>] [dir=<requested direction>]` -/
+/-- `shape ipos=<k> classes=<l;l> gattr=<row;row> passes=<pass|pass> text=<hex32> [sdir=<font direction>] [bidi=<index of the bidi step>]
+[dir=<requested direction>]` -/
 def step (line : String) : String :=
   let ws := words line
   match ws.head?, field ws "ipos", field ws "classes", field ws "gattr", field ws "passes", field ws "text" with
@@ -86,7 +87,8 @@ def step (line : String) : String :=
       let font : Font := { passes := passes.toArray, ipos := ipos, classes := cls.toArray, gattr := (ga.map List.toArray).toArray,
                            gadv := ((field ws "gadv").bind fun g => ints g ".").getD [] |>.toArray,
                            cmap := synthCmap,
-                           silfDir := ((field ws "sdir").bind String.toNat?).getD 0 }
+                           silfDir := ((field ws "sdir").bind String.toNat?).getD 0,
+                           bPass := ((field ws "bidi").bind String.toNat?).getD 0xFF }
       let dir := ((field ws "dir").bind String.toNat?).getD 0
       match shape font text.toList 100000 dir with
       | .error w => "fault " ++ w
